@@ -83,6 +83,16 @@ Proof.
   repeat split; assumption.
 Qed.
 
+(* the part of validity that every legal move preserves (valid_position adds: kings not adjacent - implied -, at most ten pieces of a kind,
+   counters in range) *)
+Definition game_inv (p : position) : Prop :=
+  length (brd p) = 64%nat /\ count_piece (brd p) White King = 1%nat /\ count_piece (brd p) Black King = 1%nat /\
+  in_check (brd p) (opp (stm p)) = false /\ no_pawn_on_back_ranks (brd p) = true /\
+  rights_consistent (brd p) (rights p) = true /\ ep_consistent p = true.
+
+Lemma valid_game_inv (p : position) : valid_position p = true -> game_inv p.
+Proof. intro H. destruct (valid_parts p H) as [A [B [C [D [E [F [G _]]]]]]]. repeat split; assumption. Qed.
+
 Lemma color_eqb_true a b : color_eqb a b = true <-> a = b.
 Proof. destruct a, b; cbn; split; congruence. Qed.
 Lemma kind_eqb_true a b : kind_eqb a b = true <-> a = b.
@@ -134,10 +144,10 @@ Proof.
 Qed.
 
 Lemma no_king_capture (p : position) (from to : N) (pr : option kind) :
-  valid_position p = true -> pseudo_legal p (Normal from to pr) = true -> is_piece (brd p) to (opp (stm p)) King = false.
+  game_inv p -> pseudo_legal p (Normal from to pr) = true -> is_piece (brd p) to (opp (stm p)) King = false.
 Proof.
   intros Hv H. destruct (is_piece (brd p) to (opp (stm p)) King) eqn:E; [exfalso|reflexivity].
-  destruct (valid_parts p Hv) as [Hl [Hwk [Hbk [Hnc _]]]].
+  destruct (Hv) as [Hl [Hwk [Hbk [Hnc _]]]].
   assert (Ht : (to < 64)%N).
   { cbn [pseudo_legal] in H. apply andb_prop in H as [H _]. apply andb_prop in H as [_ Ht]. apply N.ltb_lt in Ht. exact Ht. }
   assert (Hcount : count_piece (brd p) (opp (stm p)) King = 1%nat) by (destruct (stm p); [exact Hbk|exact Hwk]).
@@ -167,10 +177,10 @@ Proof.
 Qed.
 
 (* the en-passant victim stands on the mover's rank, which is never a back rank *)
-Lemma ep_victim_not_back (p : position) from to : valid_position p = true -> (from < 64)%N -> (to < 64)%N ->
+Lemma ep_victim_not_back (p : position) from to : game_inv p -> (from < 64)%N -> (to < 64)%N ->
   is_ep_capture p from to = true -> 1 <= rank_of (ep_victim p from to) <= 6 .
 Proof.
-  intros Hv Hf Ht H. destruct (valid_parts p Hv) as [_ [_ [_ [_ [Hnp _]]]]].
+  intros Hv Hf Ht H. destruct (Hv) as [_ [_ [_ [_ [Hnp _]]]]].
   unfold is_ep_capture in H. apply andb_prop in H as [H _]. apply andb_prop in H as [Hp _].
   unfold no_pawn_on_back_ranks in Hnp. rewrite forallb_forall in Hnp. specialize (Hnp from (proj1 (in_all_squares from) Hf)).
   assert (Hr : 0 <= rank_of from < 8) by (split; [apply rank_of_nonneg|apply rank_of_lt8; exact Hf]).
@@ -189,12 +199,12 @@ Proof. intros. apply file_rank_of_sq; assumption. Qed.
 
 (* one right: if it survives the move, its king and rook still stand on their home squares *)
 Lemma right_survives (p : position) (m : move) (col : color) (ks : bool) :
-  valid_position p = true -> pseudo_legal p m = true ->
+  game_inv p -> pseudo_legal p m = true ->
   has_right (move_rights p m) col ks = true ->
   is_piece (move_board p m) (sq_of 4 (home_rank col)) col King = true /\
   is_piece (move_board p m) (sq_of (if ks then 7 else 0) (home_rank col)) col Rook = true.
 Proof.
-  intros Hv Hpl Hr. destruct (valid_parts p Hv) as [Hl [_ [_ [_ [_ [Hrc _]]]]]].
+  intros Hv Hpl Hr. destruct (Hv) as [Hl [_ [_ [_ [_ [Hrc _]]]]]].
   set (K := sq_of 4 (home_rank col)). set (R := sq_of (if ks then 7 else 0) (home_rank col)).
   (* before the move the right was there and the pieces stood at home *)
   assert (Hold : has_right (rights p) col ks = true /\
@@ -254,7 +264,7 @@ Proof.
 Qed.
 
 Theorem rights_consistent_step (p : position) (m : move) :
-  valid_position p = true -> pseudo_legal p m = true -> rights_consistent (move_board p m) (move_rights p m) = true.
+  game_inv p -> pseudo_legal p m = true -> rights_consistent (move_board p m) (move_rights p m) = true.
 Proof.
   intros Hv Hpl.
   assert (S : forall col ks, has_right (move_rights p m) col ks = true ->
